@@ -29,7 +29,7 @@ try:
         dst = f"/verif/seeded/{sid}"
         os.makedirs(dst, exist_ok=True)
         for f in ("patch.diff", "demo.py", "notes.md"):
-            if os.path.exists(f"{src}/{f}"):
+            if os.path.exists(f"{src}/{f}") and os.path.abspath(f"{src}/{f}") != os.path.abspath(f"{dst}/{f}"):
                 shutil.copy(f"{src}/{f}", f"{dst}/{f}")
         notes = open(f"{src}/notes.md").read() if os.path.exists(f"{src}/notes.md") else ""
         json.dump({"id": sid, "breaks_property": pid, "origin": "independent sub-agent given only the property text and a scratch worktree",
